@@ -53,6 +53,9 @@ func init() {
 	mutant(&Mutant{Name: "c11-iframe-as-js", Property: "C11", File: "html/html.go",
 		Old: "\t\t\t\t\tif rawTagHash == Iframe {\n\t\t\t\t\t\tmimetype = htmlMimeBytes", New: "\t\t\t\t\tif rawTagHash == Iframe {\n\t\t\t\t\t\tmimetype = jsMimeBytes",
 		Rule: "R11.3", Construct: "case html.TextToken/MinifyMimetype(mimetype"})
+	mutant(&Mutant{Name: "c11-type-recorded-only-if-kept", Property: "C11", File: "html/html.go",
+		Old: "\t\t\t\t\t\tif rawTagHash != 0 && attr.Hash == Type {\n\t\t\t\t\t\t\trawTagMediatype = parse.Copy(val)\n\t\t\t\t\t\t}\n", New: "\t\t\t\t\t\tif rawTagHash != 0 && attr.Hash == Type && o.KeepDefaultAttrVals {\n\t\t\t\t\t\t\trawTagMediatype = parse.Copy(val)\n\t\t\t\t\t\t}\n",
+		Rule: "R11.4", Construct: "type attribute recorded"})
 	mutant(&Mutant{Name: "c11-error-position-of-inner", Property: "C11", File: "html/html.go",
 		Old: "\t\t\tif err := m.MinifyMimetype(svgMimeBytes, w, buffer.NewReader(t.Data), inlineParams); err != nil {\n\t\t\t\tif err != minify.ErrNotExist {\n\t\t\t\t\treturn minify.UpdateErrorPosition(err, z, t.Offset)",
 		New: "\t\t\tif err := m.MinifyMimetype(svgMimeBytes, w, buffer.NewReader(t.Data), inlineParams); err != nil {\n\t\t\t\tif err != minify.ErrNotExist {\n\t\t\t\t\treturn err",
@@ -61,6 +64,72 @@ func init() {
 
 func runC11(c *Ctx) {
 	c.r111()
+	c.r114()
+}
+
+// R11.4: the type attribute of a raw-text element is recorded before the attribute can be skipped.
+func (c *Ctx) r114() {
+	const rule = "R11.4"
+	c.R.Rule(rule, "in the attribute loop of html.(*Minifier).Minify, under the stipulations `rawTagHash != 0` (inside a script/style/… start tag), `attr.Hash == Type` (every comparison of attr.Hash with a constant is decided accordingly), attribute not removed and not a template: every path from the start of the iteration to a `continue` or to the end of the iteration passes the assignment that records the attribute's value in rawTagMediatype — so the media type of the element's content is chosen from its type attribute even when the attribute itself is dropped as a default value")
+	pk := c.pkg(rule, "html")
+	if pk == nil {
+		return
+	}
+	info := pk.TypesInfo
+	fd := c.fn(rule, pk, "Minifier.Minify")
+	if fd == nil {
+		return
+	}
+	g := c.graph(pk, fd)
+	construct := "html.Minifier.Minify/type attribute recorded before any skip"
+	// the recording assignment
+	var rec *flow.Node
+	for _, n := range g.Nodes {
+		if rhs, ok := assignsTo(n, func(l ast.Expr) bool { return str(l) == "rawTagMediatype" }); ok && !isNilExpr(rhs) {
+			rec = n
+		}
+	}
+	// the iteration start: attr := *tb.Shift()
+	var start *flow.Node
+	for _, n := range g.Nodes {
+		if as, ok := n.Stmt.(*ast.AssignStmt); ok && n.Kind == flow.KStmt && as.Tok == token.DEFINE && str(as.Lhs[0]) == "attr" && strings.Contains(str(as.Rhs[0]), "Shift()") {
+			start = n
+		}
+	}
+	if rec == nil || start == nil {
+		c.R.Unres(rule, construct, c.pos(fd), "recording assignment to rawTagMediatype or the attribute loop head not found")
+		return
+	}
+	typeConst, okT := int64(0), false
+	if k, ok := pk.Types.Scope().Lookup("Type").(*types.Const); ok {
+		typeConst, okT = constantInt64(k)
+	}
+	if !okT {
+		c.R.Unres(rule, construct, c.pos(fd), "hash constant Type not found")
+		return
+	}
+	raw := map[string]bool{"rawTagHash != 0": true, "rawTagHash == 0": false, "attr.Text == nil": false, "attr.HasTemplate": false,
+		"attr.TokenType != html.AttributeToken": false, "t.Traits != 0": true}
+	for _, n := range g.Nodes {
+		if n.Kind != flow.KCond {
+			continue
+		}
+		if b, ok := ast.Unparen(n.Expr).(*ast.BinaryExpr); ok && (b.Op == token.EQL || b.Op == token.NEQ) && str(b.X) == "attr.Hash" {
+			if v, ok := intConst(info, b.Y); ok {
+				raw[str(n.Expr)] = (v == typeConst) == (b.Op == token.EQL)
+			}
+		}
+	}
+	goal := func(y *flow.Node) bool {
+		if y == start {
+			return true
+		}
+		b, ok := y.Stmt.(*ast.BranchStmt)
+		return y.Kind == flow.KStmt && ok && (b.Tok == token.CONTINUE || b.Tok == token.BREAK)
+	}
+	p := g.Path(flow.Search{From: []*flow.Node{start}, Goal: goal, Avoid: func(y *flow.Node) bool { return y == rec }, AssumeRaw: raw})
+	c.R.Check(p == nil, rule, construct, c.pos(rec.Stmt), "recorded on every path of a type attribute of a raw-text element",
+		"a type attribute of a script/style element can be skipped (e.g. dropped as a default value) before its value is recorded: the element's content is then sent to the default minifier instead of the one for its declared type: "+pathStr(c, g, p))
 }
 
 type embedSite struct {
